@@ -96,6 +96,7 @@ def _work(chunk):
         "n": 0, "evals": 0, "nontrivial": set(), "classes": {}, "outcomes": set(),
         "violations": [], "nviol": 0, "states": set(), "transitions": 0, "traces": 0,
         "harness_errors": [], "first": chunk[0][0],
+        "sample": (chunk[0][0], getattr(_CHECK, "describe", lambda c: c)(chunk[0][1])),
     }
     for idx, case in chunk:
         r = _safe_run_case(case)
@@ -217,7 +218,11 @@ def run(pid, tier="quick", seed=0, nproc=None, cap_s=None, confirm=True):
     samples = []
     capped = False
 
+    later_samples = []
+
     def merge(a):
+        if a.get("sample") is not None and a["sample"][0] > 1:
+            later_samples.append(a["sample"])
         tot["n"] += a["n"]
         tot["evals"] += a["evals"]
         tot["nontrivial"] |= a["nontrivial"]
@@ -325,7 +330,7 @@ def run(pid, tier="quick", seed=0, nproc=None, cap_s=None, confirm=True):
         "distinct_outcomes": len(tot["outcomes"]),
         "corner_classes": dict(sorted(tot["classes"].items())),
         "rule": chk.RULE,
-        "samples": samples,
+        "samples": samples + [smp for _, smp in ([later_samples[len(later_samples) // 2], later_samples[-1]] if len(later_samples) >= 2 else later_samples)],
         "exhaustive": not capped,
         "bounds": chk.bounds(tier, seed) if hasattr(chk, "bounds") else {},
         "soft_classes_not_reached": [c for c in getattr(chk, "SOFT_CLASSES", []) if tot["classes"].get(c, 0) == 0],
